@@ -24,6 +24,8 @@ type c14Case struct {
 	OtherFirst bool   `json:"other_first"` // another peer is connected before the submissions
 	Restart    bool   `json:"restart"`     // restart the node while bundles wait
 	Second     int    `json:"second"`      // a second group of this size follows later (after the restart, if any)
+	Preset     int    `json:"preset,omitempty"` // sequence numbers the application put into its bundles: 0 none (zero), 1 = 1,2,3,..., 2 = all 7
+	Gap        []int  `json:"gap,omitempty"` // bundles of the first group that reach the destination (and leave the store) before the restart: the stored sequence numbers get gaps
 }
 
 func vfConf(algo string) RoutingConf {
@@ -92,6 +94,12 @@ func c14Body(c *vk.Ctx, cs c14Case) {
 		var bs []bpv7.Bundle
 		for i := 0; i < n; i++ {
 			b, p := c14Bundle(i, group, t, cs.Epoch)
+			switch cs.Preset {
+			case 1: // an application that numbers its own bundles (e.g. a WebSocket client handing over complete bundles)
+				b.PrimaryBlock.CreationTimestamp[1] = uint64(i + 1)
+			case 2:
+				b.PrimaryBlock.CreationTimestamp[1] = 7
+			}
 			bs = append(bs, b)
 			submitted[string(p)] = true
 		}
@@ -194,6 +202,31 @@ func c14Body(c *vk.Ctx, cs c14Case) {
 		}
 	}
 	check("after the first group")
+	if len(cs.Gap) > 0 && !cs.DestFirst {
+		// the destination is connected for a moment: the transmissions of the chosen bundles succeed, the
+		// others fail and stay in the store
+		chosen := map[string]bool{}
+		for _, g := range cs.Gap {
+			chosen[fmt.Sprintf("c14-payload-group0-%d", g%cs.N)] = true
+		}
+		bis, err := s.core.store.QueryPending()
+		if err != nil {
+			s.failf("c14.harness", "QueryPending: %v", err)
+		}
+		script := map[string][]bool{}
+		for _, bi := range bis {
+			if b, err := bi.Parts[0].Load(); err == nil {
+				script[b.ID().String()] = []bool{chosen[string(vfPayloadOf(&b))], false, false, false}
+			}
+		}
+		s.scriptNext = map[string]map[string][]bool{"dest": script}
+		s.logf("peer dest appears for a moment; transmissions of %d chosen bundles succeed", len(chosen))
+		s.addPeer("dest")
+		s.dropPeer("dest")
+		s.logf("peer dest disappears")
+		c.Class("stored sequence numbers with gaps")
+		check("after some bundles were delivered")
+	}
 	if cs.Restart {
 		s.restart()
 		s.logf("restart")
@@ -244,12 +277,13 @@ func c14Body(c *vk.Ctx, cs c14Case) {
 
 func TestVerifC14Groups(t *testing.T) {
 	u := vk.Unit{Property: "C14", Name: "c14.groups", Quick: 360, Thorough: 5000,
-		Rule: "groups of 2..6 distinct bundles with identical source and creation time (same millisecond, or epoch time + age block) submitted sequentially through Core.SendBundle, through an application agent and the agent manager, or concurrently from 2..6 goroutines; with no peer, another peer, or the destination peer connected; followed by an optional restart, a second group, a retry tick and the appearance of the destination; oracle on the bytes seen by the scripted peers and on the store after every step: distinct payloads <=> distinct IDs, one ID per payload for ever, every bundle not yet handed to its destination is filed as pending and loads its own payload under the ID it was transmitted with, finally every bundle reaches the destination; non-trivial = group of >= 2 that had to wait in the store; distinct by case hash"}
+		Rule: "groups of 2..6 distinct bundles with identical source and creation time (same millisecond, or epoch time + age block; sequence numbers as the builder leaves them, or pre-set by the application to 1,2,3,... or all to 7) submitted sequentially through Core.SendBundle, through an application agent and the agent manager, or concurrently from 2..6 goroutines; with no peer, another peer, or the destination peer connected; optionally the destination is connected for a moment so that some bundles of the group leave the store (stored sequence numbers with gaps); followed by an optional restart, a second group, a retry tick and the appearance of the destination; oracle on the bytes seen by the scripted peers and on the store after every step: distinct payloads <=> distinct IDs, one ID per payload for ever, every bundle not yet handed to its destination is filed as pending and loads its own payload under the ID it was transmitted with, finally every bundle reaches the destination; non-trivial = group of >= 2 that had to wait in the store; distinct by case hash"}
 	vk.Check(t, u, func(t *rapid.T) c14Case {
 		return c14Case{Algo: rapid.SampledFrom([]string{"epidemic", "epidemic", "spray", "prophet"}).Draw(t, "algo"), N: rapid.IntRange(2, 6).Draw(t, "n"),
 			Epoch: rapid.IntRange(0, 2).Draw(t, "epoch") == 0, Path: rapid.SampledFrom([]string{"send", "send", "agent", "concurrent"}).Draw(t, "path"),
 			DestFirst: rapid.IntRange(0, 3).Draw(t, "destfirst") == 0, OtherFirst: rapid.Bool().Draw(t, "otherfirst"),
-			Restart: rapid.IntRange(0, 2).Draw(t, "restart") == 0, Second: rapid.SampledFrom([]int{0, 0, 1, 3}).Draw(t, "second")}
+			Restart: rapid.IntRange(0, 2).Draw(t, "restart") == 0, Second: rapid.SampledFrom([]int{0, 0, 1, 3}).Draw(t, "second"),
+			Gap: rapid.SliceOfN(rapid.IntRange(0, 5), 0, 2).Draw(t, "gap"), Preset: rapid.SampledFrom([]int{0, 0, 1, 2}).Draw(t, "preset")}
 	}, c14Body)
 }
 
